@@ -112,6 +112,27 @@ pub fn run(ctx: &mut Ctx) {
         }
     });
     ctx.require(&r, &["ok_value", "error"]);
+    // the published MIN / MAX / ZERO constants are the documented range ends
+    {
+        use sqldatetime::{IntervalDT, IntervalYM};
+        let consts: Vec<(&str, i128, i128)> = vec![
+            ("Date::MIN", Date::MIN.days() as i128, rg::DATE_MIN), ("Date::MAX", Date::MAX.days() as i128, rg::DATE_MAX), ("Time::ZERO", Time::ZERO.usecs() as i128, rg::TIME_MIN), ("Time::MAX", Time::MAX.usecs() as i128, rg::TIME_MAX),
+            ("Timestamp::MIN", Timestamp::MIN.usecs() as i128, rg::TS_MIN), ("Timestamp::MAX", Timestamp::MAX.usecs() as i128, rg::TS_MAX), ("OracleDate::MIN", OracleDate::MIN.usecs() as i128, rg::OD_MIN), ("OracleDate::MAX", OracleDate::MAX.usecs() as i128, rg::OD_MAX),
+            ("IntervalYM::MIN", IntervalYM::MIN.months() as i128, -rg::YM_MAX), ("IntervalYM::MAX", IntervalYM::MAX.months() as i128, rg::YM_MAX), ("IntervalYM::ZERO", IntervalYM::ZERO.months() as i128, 0),
+            ("IntervalDT::MIN", IntervalDT::MIN.usecs() as i128, -rg::DT_MAX), ("IntervalDT::MAX", IntervalDT::MAX.usecs() as i128, rg::DT_MAX), ("IntervalDT::ZERO", IntervalDT::ZERO.usecs() as i128, 0),
+        ];
+        let mut acc = explorer::Acc::new("published_constants");
+        for (i, (name, got, want)) in consts.iter().enumerate() {
+            acc.states += 1;
+            acc.t(1);
+            acc.cls("ok_value");
+            if got != want {
+                acc.fail(&format!("C02:{name}:not-the-documented-range-end"), i as u64, || (name.to_string(), format!("{want}"), format!("{got}"), String::new()));
+            }
+        }
+        ctx.absorb_external("published_constants", "MIN / MAX / ZERO of the six types against the documented range ends", acc);
+    }
+
     // texts at and beyond the limits of every type: whatever parse returns must be in range
     let mut texts: Vec<(refmodel::picture::Ty, &'static str, String)> = Vec::new();
     use refmodel::picture::Ty;
